@@ -1,4 +1,5 @@
 import MxModel.Struct.Mech
+import MxModel.Struct.MechRename
 import MxModel.Generated.Tables
 /-! Line-protocol driver for the incremental mechanism model of `SpaceManager` / `SpaceUpdater`
 (`MxModel/Struct/Mech.lean`): one edit per line, `acc` / `rej` per edit, `obs` prints the whole state. -/
@@ -55,6 +56,10 @@ def step (st : St) (line : String) : St × String :=
   match (line.splitOn " ").filter (· ≠ "") with
   | ["reset"] => ({}, "ok")
   | ["obs"] => (st, showState st)
+  -- `space.rename(name)`: not a constructor of `Op` (`Struct/MechRename.lean`, histories `OpR`)
+  | ["renamespace", p, new] =>
+    let r := st.stepR kw (.renameSpace (pathOf p) new)
+    (r.1, if r.2 then "acc" else "rej")
   | toks =>
     match parseOp toks with
     | none => (st, "bad-op")
@@ -67,6 +72,7 @@ partial def loop (h out : IO.FS.Stream) (st : St) : IO Unit := do
   if line.isEmpty then return ()
   let (st', o) := step st (line.trimAscii.toString)
   out.putStrLn o
+  out.flush      -- the harness keeps one driver process (every history starts with `reset`)
   loop h out st'
 
 def main : IO Unit := do loop (← IO.getStdin) (← IO.getStdout) {}
